@@ -576,7 +576,9 @@ one call site, `gts.Slice` (sequence.go:278), where its argument is
 `locs := make([]Location, n)` and returns `Join(locs...)`/`Order(locs...)`, which is either a new
 slice (`list.Slice()`, `flattenLocations`) or a single element that is itself the result of an
 `Expand`; so every slice reachable from the argument was allocated by that `Expand`
-(`allocLoc` below; checked on the real code by the C11 harness, oracle `expand-fresh`). -/
+(`allocLoc` below is the stand-in for that; Gts/Model/MemLoc.lean writes `Expand`, `Join`, `Order`
+as heap programs and Gts/Props/C11Fresh.lean PROVES it: `expand_fresh`, `sliceLoc_frame`; the
+harness oracle `expand-fresh` and the op `mem.loc` check the real code). -/
 
 /-- a location as it lies in memory -/
 inductive MLoc where
